@@ -151,11 +151,23 @@ def _judge(H, net):
             fails.append(Fail("linkage_deficiencies", f"{view}: {ld}", str(lds), key_extra=view))
         if s.deficiency < 0 or sum(ld) > s.deficiency:
             fails.append(Fail("deficiency_bounds", f"{view}: delta={s.deficiency} sum={sum(ld)}", "0 <= sum(delta_l) <= delta", key_extra=view))
+        # the same analyser object asked again (second pass, then the convenience wrapper): answers may not drift
+        first = (dict(got), sorted(ld))
+        for again in ("second_pass", "wrapper"):
+            if again == "second_pass":
+                an.compute_summary().compute_linkage_deficiencies()
+            else:
+                an.compute_crn_deficiency()
+            s2 = an.summary
+            now = ({k: getattr(s2, k) for k in want}, sorted(an.linkage_deficiencies))
+            if now != first or sorted(an.as_dict().get("linkage_deficiencies", [])) != lds:
+                fails.append(Fail("analyser_reuse", f"{view} {again}: {now}", f"{first} (the first answer of the same object)", key_extra=f"{view},{again}"))
+                break
         cxi = getattr(an, "_complexes", None)
         if cxi is not None and set(map(tuple, cxi)) != cxs:
             fails.append(Fail("complexes", f"{view}: {sorted(set(map(tuple, cxi)))}", str(sorted(cxs)), key_extra=view))
     nt = want["n_linkage_classes"] > 1 or want["deficiency"] > 0 or not want["weakly_reversible"]
-    return Outcome(nontrivial=nt, outcome=f"c{want['n_complexes']}l{want['n_linkage_classes']}d{want['deficiency']}wr{int(want['weakly_reversible'])}", fails=fails, transitions=3)
+    return Outcome(nontrivial=nt, outcome=f"c{want['n_complexes']}l{want['n_linkage_classes']}d{want['deficiency']}wr{int(want['weakly_reversible'])}", fails=fails, transitions=9)
 
 
 def judge(H, net):
